@@ -832,6 +832,38 @@ impl<C: CongestionController> CongestionController for CcProxy<C> {
 }
 
 // ---------------------------------------------------------------------------
+// deterministic stateless-reset token generator (keyed by a per-endpoint secret): enables
+// stateless resets, which the default (random-token) provider keeps switched off
+
+pub struct SrtGen(pub u64);
+
+impl SrtGen {
+    pub fn token_for(secret: u64, cid: &[u8]) -> [u8; 16] {
+        let h1 = vq_util::mix(secret, vq_util::fnv(cid));
+        let h2 = vq_util::mix(h1, 0x5157_5157);
+        let mut t = [0u8; 16];
+        t[..8].copy_from_slice(&h1.to_le_bytes());
+        t[8..].copy_from_slice(&h2.to_le_bytes());
+        t
+    }
+}
+
+impl s2n_quic_core::stateless_reset::token::Generator for SrtGen {
+    const ENABLED: bool = true;
+    fn generate(&mut self, local_connection_id: &[u8]) -> s2n_quic_core::stateless_reset::Token {
+        Self::token_for(self.0, local_connection_id).into()
+    }
+}
+
+impl s2n_quic::provider::stateless_reset_token::Provider for SrtGen {
+    type Generator = Self;
+    type Error = core::convert::Infallible;
+    fn start(self) -> Result<Self::Generator, Self::Error> {
+        Ok(self)
+    }
+}
+
+// ---------------------------------------------------------------------------
 // deterministic random provider (per endpoint)
 
 pub struct Random(pub vq_util::Rng);
